@@ -2,6 +2,7 @@
    Every tag accepted into a run's harvest is, at every moment, in exactly one of:
    held in a harvest, in a request awaiting its answer, acknowledged, or given up (with a reason). *)
 From Coq Require Import NArith ZArith List Bool Lia Permutation.
+From Verif.Gen Require Limits_gen HarvestBits_gen.
 From Verif Require Import Processor.
 Import ListNotations.
 
@@ -429,15 +430,30 @@ Proof.
   pose proof (harvest_tags_set_bag t h c []) as Q. cbn [tags map] in Q. rewrite cnt_nil in Q. lia.
 Qed.
 
+Lemma h_bag_reset h c cap c' : h_bag (reset_cat h c cap) c' = if cat_eqb c' c then [] else h_bag h c'.
+Proof. reflexivity. Qed.
+
 Lemma default_reset_ok t hp :
   cnt t (harvest_tags (set_flags (fold_left (fun hh c => reset_cat hh c (h_cap hh c)) default_order hp) false false false)) +
   cnt t (concat (map (fun c => tags (h_bag hp c)) default_order)) = cnt t (harvest_tags hp).
 Proof.
   rewrite harvest_tags_set_flags.
   unfold default_order. cbn [fold_left map concat].
-  unfold harvest_tags, all_cats, all_order, reset_cat, set_cap, set_failed, set_seen, set_bag, upd.
-  cbn [h_bag h_cap h_seen h_failed map concat cat_eqb cat_idx Nat.eqb tags].
-  rewrite ?cnt_app, ?cnt_nil. lia.
+  set (h1 := reset_cat hp CMetrics (h_cap hp CMetrics)).
+  set (h2 := reset_cat h1 CErrors (h_cap h1 CErrors)).
+  set (h3 := reset_cat h2 CSlow (h_cap h2 CSlow)).
+  set (h4 := reset_cat h3 CTraces (h_cap h3 CTraces)).
+  pose proof (harvest_tags_reset t hp CMetrics (h_cap hp CMetrics)) as R1. fold h1 in R1.
+  pose proof (harvest_tags_reset t h1 CErrors (h_cap h1 CErrors)) as R2. fold h2 in R2.
+  pose proof (harvest_tags_reset t h2 CSlow (h_cap h2 CSlow)) as R3. fold h3 in R3.
+  pose proof (harvest_tags_reset t h3 CTraces (h_cap h3 CTraces)) as R4. fold h4 in R4.
+  pose proof (harvest_tags_reset t h4 CPkgs (h_cap h4 CPkgs)) as R5.
+  assert (B2 : h_bag h1 CErrors = h_bag hp CErrors) by reflexivity.
+  assert (B3 : h_bag h2 CSlow = h_bag hp CSlow) by reflexivity.
+  assert (B4 : h_bag h3 CTraces = h_bag hp CTraces) by reflexivity.
+  assert (B5 : h_bag h4 CPkgs = h_bag hp CPkgs) by reflexivity.
+  rewrite B2 in R2. rewrite B3 in R3. rewrite B4 in R4. rewrite B5 in R5.
+  rewrite !cnt_app, cnt_nil. lia.
 Qed.
 
 Lemma event_step_ok ty caps e acc cb :
@@ -524,7 +540,7 @@ Proof.
   intros Hi V. unfold harvest_by_type.
   set (ah := get_ah s ahid). set (a := get_obj s (ah_app ah)). set (h := ah_h ah).
   set (grp := p_next s). set (s0 := with_next s (S grp)). set (e := ctx_of s0 ah grp). set (caps := cur_caps a).
-  destruct (has_bits ty HarvestAll).
+  destruct (has_bits ty HarvestBits_gen.HarvestAll).
   - (* everything at once *)
     pose proof (filter_harvest_pkgs_ok (put_ah_h s0 ahid (new_harvest caps)) (ah_app ah) h) as F.
     destruct (filter_harvest_pkgs (put_ah_h s0 ahid (new_harvest caps)) (ah_app ah) h) as [s2 h1].
@@ -561,8 +577,8 @@ Proof.
       * eapply conserve_trans; [exact Hcons|]. apply same_acct_conserve. repeat split.
       * intros r i Hl. proj_simp. exact (Hval r i Hl).
   - (* by type *)
-    pose proof (default_stage_ok s0 e (ah_app ah) h (has_bits ty HarvestDefaultData)) as D.
-    destruct (default_stage s0 e (ah_app ah) h (has_bits ty HarvestDefaultData)) as [[s1 h1] qs1].
+    pose proof (default_stage_ok s0 e (ah_app ah) h (has_bits ty HarvestBits_gen.HarvestDefaultData)) as D.
+    destruct (default_stage s0 e (ah_app ah) h (has_bits ty HarvestBits_gen.HarvestDefaultData)) as [[s1 h1] qs1].
     destruct D as (D1 & D2 & D3 & D4 & D5 & d & Dd & Dt).
     pose proof (event_steps_ok ty caps e event_order (s1, h1, qs1)) as E.
     destruct (fold_left (event_step ty caps e) event_order (s1, h1, qs1)) as [[s2 h2] qs2].
@@ -593,7 +609,7 @@ Proof.
       destruct Or as [Or1 Or2]. rewrite Or1 in Hl. rewrite Or2. rewrite D5 in Hl. rewrite D1.
       subst s0. proj_simp. exact (V r i Hl). }
     destruct (Nat.eqb (length qs2) 0).
-    + destruct (has_bits ty HarvestDefaultData && negb (harvest_empty h)).
+    + destruct (has_bits ty HarvestBits_gen.HarvestDefaultData && negb (harvest_empty h)).
       * pose proof (usage_request_ok (register (put_ah_h s2 ahid h2) qs2) e) as (U1 & U2 & U3).
         destruct (usage_request (register (put_ah_h s2 ahid h2) qs2) e) as [s5 u]. cbn [fst snd] in *.
         pose proof (register_ok s5 u) as (Q1 & Q2 & Q3 & Q4 & Q5 & Q6).
@@ -680,7 +696,7 @@ Proof.
   assert (V1 : runs_valid s1) by exact V.
   assert (C1 : conserve s s1) by (apply same_acct_conserve; repeat split).
   destruct o as [r|f| |]; cbn [fst].
-  - destruct (connect_ok_conserve s1 (ca_key c) host r V1) as [A B]. split; [eapply conserve_trans; eassumption|exact B].
+  - destruct (connect_ok_conserve s1 (ca_key c) host r V1) as [A B]. split; [eapply conserve_trans; [exact C1|exact A]|exact B].
   - destruct (connect_failed_same s1 (ca_key c) (Some f)) as [A B].
     split; [eapply conserve_trans; [exact C1|apply same_acct_conserve; exact A]|eapply runs_valid_same; eassumption].
   - destruct (connect_failed_same s1 (ca_key c) None) as [A B].
@@ -710,28 +726,53 @@ Proof.
   - cbn [remove_nth]. specialize (IH n q H). unfold req_tags in *. cbn [map concat]. rewrite !cnt_app. lia.
 Qed.
 
+Lemma merge_failed_body_ok t h c q :
+  let '(h1, refused, given_up) :=
+    (if cat_eqb c CMetrics then
+      let fails := (rq_failed q + 1)%N in
+      if (metric_limit <? fails)%N then (h, [], rq_items q)
+      else
+        let h1 := set_failed h CMetrics (N.max (h_failed h CMetrics) fails) in
+        (set_flags (set_bag h1 CMetrics (h_bag h1 CMetrics ++ rq_items q)) true (h_pids h1) (h_haspkgs h1), [], [])
+    else if is_event c then
+      let fails := (rq_failed q + 1)%N in
+      if (event_limit <? fails)%N then (h, [], rq_items q)
+      else
+        let h1 := set_failed h c fails in
+        let all_seen := (h_seen h1 c + rq_seen q)%N in
+        let '(h2, d) := add_items h1 (map (fun x => (c, x)) (rq_items q)) in
+        (set_seen h2 c all_seen, d, [])
+    else (h, [], rq_items q)) in
+  cnt t (harvest_tags h1) + cnt t (tags refused) + cnt t (tags given_up) =
+  cnt t (harvest_tags h) + cnt t (tags (rq_items q)).
+Proof.
+  destruct (cat_eqb c CMetrics).
+  - cbn zeta. destruct (metric_limit <? rq_failed q + 1)%N.
+    + cbn [tags map]. rewrite cnt_nil. lia.
+    + rewrite harvest_tags_set_flags.
+      set (h1 := set_failed h CMetrics (N.max (h_failed h CMetrics) (rq_failed q + 1))).
+      pose proof (harvest_tags_set_bag t h1 CMetrics (h_bag h1 CMetrics ++ rq_items q)) as Q.
+      rewrite tags_app, cnt_app in Q. subst h1. rewrite harvest_tags_set_failed in Q.
+      cbn [tags map]. rewrite !cnt_nil. lia.
+  - destruct (is_event c).
+    + cbn zeta. destruct (event_limit <? rq_failed q + 1)%N.
+      * cbn [tags map]. rewrite cnt_nil. lia.
+      * pose proof (add_items_ok t (map (fun x => (c, x)) (rq_items q)) (set_failed h c (rq_failed q + 1))) as A.
+        destruct (add_items (set_failed h c (rq_failed q + 1)) (map (fun x => (c, x)) (rq_items q))) as [h2 d].
+        cbn [fst snd] in A. rewrite harvest_tags_set_seen. rewrite harvest_tags_set_failed in A.
+        rewrite map_map in A. cbn [snd] in A.
+        change (map (fun x : item => i_tag x) (rq_items q)) with (tags (rq_items q)) in A.
+        cbn [tags map]. rewrite !cnt_nil. unfold tags in *. lia.
+    + cbn [tags map]. rewrite cnt_nil. lia.
+Qed.
+
 Lemma merge_failed_ok t h c q :
   let '(h1, refused, given_up) := merge_failed h c q in
   cnt t (harvest_tags h1) + cnt t (tags refused) + cnt t (tags given_up) =
   cnt t (harvest_tags h) + cnt t (tags (rq_items q)).
 Proof.
-  unfold merge_failed. destruct (rq_kind q).
-  1,2,3: idtac.
-  all: try (destruct (cat_eqb c CMetrics) eqn:Ec).
-  all: try (destruct (metric_limit <? rq_failed q + 1)%N).
-  all: try (destruct (is_event c) eqn:Ee).
-  all: try (destruct (event_limit <? rq_failed q + 1)%N).
-  all: try (rewrite ?harvest_tags_set_flags, ?harvest_tags_set_failed; cbn [tags map]; rewrite ?cnt_nil; lia).
-  all: try (rewrite harvest_tags_set_flags;
-            pose proof (harvest_tags_set_bag t (set_failed h CMetrics (N.max (h_failed h CMetrics) (rq_failed q + 1))) CMetrics
-                          (h_bag (set_failed h CMetrics (N.max (h_failed h CMetrics) (rq_failed q + 1))) CMetrics ++ rq_items q)) as Q;
-            rewrite harvest_tags_set_failed in Q; rewrite tags_app, cnt_app in Q;
-            change (h_bag (set_failed h CMetrics (N.max (h_failed h CMetrics) (rq_failed q + 1))) CMetrics) with (h_bag h CMetrics) in Q;
-            cbn [tags map]; rewrite ?cnt_nil; unfold tags in *; lia).
-  all: try (pose proof (add_items_ok t (map (fun x => (c, x)) (rq_items q)) (set_failed h c (rq_failed q + 1))) as A;
-            destruct (add_items (set_failed h c (rq_failed q + 1)) (map (fun x => (c, x)) (rq_items q))) as [h2 d];
-            cbn [fst snd] in A; rewrite harvest_tags_set_seen; rewrite harvest_tags_set_failed in A;
-            rewrite map_map in A; cbn [snd] in A; cbn [tags map]; rewrite ?cnt_nil; unfold tags in *; lia).
+  unfold merge_failed. destruct (rq_kind q); try apply merge_failed_body_ok.
+  rewrite harvest_tags_set_flags, harvest_tags_set_failed. cbn [tags map]. rewrite cnt_nil. lia.
 Qed.
 
 (* what a step did, when the only change to offered is none: s' accounts for s plus the tags l *)
@@ -781,7 +822,7 @@ Proof.
                           runs_valid (fst (consider_connect (shutdown_run (put_obj s1 i (set_state a st)) (rq_run q)) i))).
   { intros st. destruct (SH st) as [S1 S2].
     destruct (consider_connect_same (shutdown_run (put_obj s1 i (set_state a st)) (rq_run q)) i) as [C1 C2].
-    split; [eapply same_acct_trans; eassumption|eapply runs_valid_same; eassumption]. }
+    split; [eapply same_acct_trans; [exact S1|exact C1]|eapply runs_valid_same; [exact C2|exact S2]]. }
   destruct f; cbn [fst];
     try (destruct (astate_eqb (a_state a) SDisconnected); cbn [fst]);
     try (destruct (astate_eqb (a_state a) SRestart); cbn [fst]);
@@ -816,7 +857,7 @@ Proof.
   split.
   - split; [destruct U1 as (_ & _ & U13 & _); congruence|].
     intros t. rewrite <- (total_same s s2 t U1). unfold total, held, dropped. rewrite Q1, Q3, Q4.
-    specialize (Q6 t). rewrite U3, cnt_nil in Q6. cbn. lia.
+    specialize (Q6 t). rewrite U3, cnt_nil in Q6. rewrite ?cnt_nil. lia.
   - intros V r i Hl. rewrite Q5 in Hl. rewrite Q1. destruct U2 as [U2a U2b]. rewrite U2a in Hl. rewrite U2b. exact (V r i Hl).
 Qed.
 
@@ -908,7 +949,7 @@ Proof.
       rewrite harvest_tags_final in T.
       unfold held, inflight. rewrite P1, P2, P3. proj_simp. rewrite A1, A2, A3, F1, F2, F3.
       unfold dropped in *. proj_simp. rewrite A4, A5, F4 in P5. rewrite Fd, cnt_app in P5.
-      unfold put_ah_h in *. proj_simp. subst ah. unfold get_ah in *. lia.
+      unfold put_ah_h in *. proj_simp. subst ah. unfold get_ah, held in *. proj_simp. lia.
     + intros r i Hl. rewrite P4 in Hl. rewrite P1. proj_simp. rewrite Or1 in Hl. rewrite Or2. rewrite F5 in Hl. rewrite F1.
       unfold put_ah_h in *. proj_simp. rewrite length_set_nth. exact (V r i Hl).
 Qed.
@@ -974,7 +1015,7 @@ Proof.
   unfold harvest_by_type.
   set (ah := get_ah s ahid). set (a := get_obj s (ah_app ah)). set (h := ah_h ah).
   set (grp := p_next s). set (s0 := with_next s (S grp)). set (e := ctx_of s0 ah grp). set (caps := cur_caps a).
-  destruct (has_bits ty HarvestAll).
+  destruct (has_bits ty HarvestBits_gen.HarvestAll).
   - pose proof (filter_harvest_pkgs_ok (put_ah_h s0 ahid (new_harvest caps)) (ah_app ah) h) as F.
     destruct (filter_harvest_pkgs (put_ah_h s0 ahid (new_harvest caps)) (ah_app ah) h) as [s2 h1].
     cbn [fst snd] in F. destruct F as (_ & _ & F3 & _).
@@ -982,21 +1023,24 @@ Proof.
     destruct (emit_cats s2 e (final_metrics h1) all_order) as [s3 qs]. cbn [fst snd] in O.
     destruct O as (Oa & _). apply same_acct_offered in Oa.
     pose proof (register_ok s3 qs) as (_ & R2 & _).
+    assert (E0 : g_offered (put_ah_h s0 ahid (new_harvest caps)) = g_offered s) by reflexivity.
     destruct (Nat.eqb (length qs) 0).
     + pose proof (usage_request_ok (register s3 qs) e) as (U1 & _). apply same_acct_offered in U1.
       destruct (usage_request (register s3 qs) e) as [s5 u]. cbn [fst snd] in *.
       pose proof (register_ok s5 u) as (_ & Q2 & _). congruence.
     + cbn [fst]. proj_simp. congruence.
-  - pose proof (default_stage_ok s0 e (ah_app ah) h (has_bits ty HarvestDefaultData)) as D.
-    destruct (default_stage s0 e (ah_app ah) h (has_bits ty HarvestDefaultData)) as [[s1 h1] qs1].
+  - pose proof (default_stage_ok s0 e (ah_app ah) h (has_bits ty HarvestBits_gen.HarvestDefaultData)) as D.
+    destruct (default_stage s0 e (ah_app ah) h (has_bits ty HarvestBits_gen.HarvestDefaultData)) as [[s1 h1] qs1].
     destruct D as (_ & _ & D3 & _).
     pose proof (event_steps_ok ty caps e event_order (s1, h1, qs1)) as E.
     destruct (fold_left (event_step ty caps e) event_order (s1, h1, qs1)) as [[s2 h2] qs2].
     destruct E as [(Oa & _) _]. apply same_acct_offered in Oa.
     pose proof (register_ok (put_ah_h s2 ahid h2) qs2) as (_ & R2 & _).
-    assert (R2' : g_offered (register (put_ah_h s2 ahid h2) qs2) = g_offered s) by (rewrite R2; unfold put_ah_h; proj_simp; congruence).
+    assert (E0 : g_offered s0 = g_offered s) by reflexivity.
+    assert (R2' : g_offered (register (put_ah_h s2 ahid h2) qs2) = g_offered s).
+    { rewrite R2. change (g_offered (put_ah_h s2 ahid h2)) with (g_offered s2). congruence. }
     destruct (Nat.eqb (length qs2) 0).
-    + destruct (has_bits ty HarvestDefaultData && negb (harvest_empty h)); [|exact R2'].
+    + destruct (has_bits ty HarvestBits_gen.HarvestDefaultData && negb (harvest_empty h)); [|exact R2'].
       pose proof (usage_request_ok (register (put_ah_h s2 ahid h2) qs2) e) as (U1 & _). apply same_acct_offered in U1.
       destruct (usage_request (register (put_ah_h s2 ahid h2) qs2) e) as [s5 u]. cbn [fst snd] in *.
       pose proof (register_ok s5 u) as (_ & Q2 & _). congruence.
@@ -1099,7 +1143,12 @@ Proof. induction l; constructor; assumption. Qed.
 Lemma sublist_nil_l {A} (l : list A) : sublist [] l.
 Proof. induction l; constructor; assumption. Qed.
 Lemma sublist_app {A} (a b c d : list A) : sublist a b -> sublist c d -> sublist (a ++ c) (b ++ d).
-Proof. intros H. induction H; intros K; cbn; try constructor; auto. Qed.
+Proof.
+  intros H. induction H; intros K; cbn [app].
+  - exact K.
+  - apply sub_skip. apply IHsublist. exact K.
+  - apply sub_keep. apply IHsublist. exact K.
+Qed.
 Lemma sublist_in {A} (a b : list A) x : sublist a b -> In x a -> In x b.
 Proof. intros H. induction H; intros K; [destruct K|right; auto|destruct K as [->|K]; [left; reflexivity|right; auto]]. Qed.
 Lemma sublist_NoDup {A} (a b : list A) : sublist a b -> NoDup b -> NoDup a.
@@ -1153,5 +1202,5 @@ Qed.
 Corollary acked_once ops : distinct_tags ops -> NoDup (g_acked (fst (run ops))).
 Proof.
   intros D. destruct (exactly_once ops D) as [N _]. cbn zeta in N.
-  apply NoDup_app_remove_l in N. apply NoDup_app_remove_l in N. apply NoDup_app_remove_r in N. exact N.
+  apply NoDup_of_cnt. intros t. pose proof (cnt_NoDup t _ N) as H. rewrite !cnt_app in H. lia.
 Qed.
